@@ -1,4 +1,5 @@
 import ZmqVerif.Model.Sockets
+import ZmqVerif.Lemmas.WorldHist
 import ZmqVerif.Lemmas.WorldXpubSubs
 import ZmqVerif.Spec.PubSub
 import ZmqVerif.Lemmas.WorldPubReader
@@ -135,5 +136,24 @@ theorem C11_world_xpub_subs (fuel : Nat) (w : World) (sid : Nat) (s : Socket) (h
            (j = k ∧ ∃ old, ilookup s.subsOf k = some old ∧ ilookup s'.subsOf k = some (onMsg old m))
        | _ => ∀ j, ilookup s'.subsOf j = none ∨ ilookup s'.subsOf j = ilookup s.subsOf j) :=
   recvPoll_xpub_subs fuel w sid s hs ht w' o h
+
+
+open Zmq.W in
+/-- **XPUB hands every subscription message to the application verbatim and in per-peer order** — over every history of
+`recv` polls and arriving bytes: what `recv` has returned for connection `k` (each entry of `log` for `k`: the message
+itself, frame for frame, never an error), followed by the complete messages still waiting in front of `k`'s reader, is
+exactly the sequence of complete messages in `k`'s whole byte stream so far. -/
+theorem C11_world_xpub_verbatim {ps0 : Pipes} {m0 : Streams} {ps : Pipes} {m : Streams}
+    {taken : Ident → List Item} {rev : Nat → Bytes} {log : List (Ident × Msg × POut)}
+    (h : RecvRun .xpub ps0 m0 ps m taken rev log) (k : Ident) (rd0 rd : Rd)
+    (h0 : ilookup m0 k = some rd0) (hk : ilookup m k = some rd) :
+    (∀ e ∈ log, e.2.2 = .ready (.okMsg e.2.1)) ∧
+    msgsOf (total ps0 rd0 rev).items = (log.filter (fun e => e.1 == k)).map (·.2.1) ++ msgsOf (rd.items ps) := by
+  refine ⟨?_, h.exactly_once k rd0 rd h0 hk⟩
+  intro e he
+  rcases h.log_spec e he with ⟨r, h1, h2⟩ | ⟨x, _, h2⟩
+  · simp only [deliver, Option.some.injEq] at h2
+    rw [h1, h2]
+  · simp [deliver] at h2
 
 end Zmq.C11
